@@ -147,13 +147,24 @@ def run(ctx, rep):
             rep.violation("C04.3", cons, "no raising check dominates the substitution: a call with the wrong number of arguments would be expanded", loc)
             continue
         recognised = False
+        one_sided = None
+        fl = None
+        from ..fieldflow import FuncFlow
+        fl = FuncFlow(ix, T, f)
         for g in guards:
-            lens = [m for m in ast.walk(g.test) if isinstance(m, ast.Call) and isinstance(m.func, ast.Name) and m.func.id == "len"]
-            if len(lens) >= 2 and any(isinstance(m, ast.Compare) for m in ast.walk(g.test)):
-                srcs = {ast.unparse(m.args[0]) for m in lens if m.args}
-                if len(srcs) >= 2 and any("parameters" in s for s in srcs):
+            ids, roots = fl.depends(g.test)
+            lens = [m for r in roots for m in ast.walk(r) if isinstance(m, ast.Call) and isinstance(m.func, ast.Name) and m.func.id == "len"]
+            cmps = [m for m in ast.walk(g.test) if isinstance(m, ast.Compare)]
+            srcs = {ast.unparse(m.args[0]) for m in lens if m.args}
+            if len(srcs) >= 2 and cmps and any("parameters" in s for s in srcs):
+                ops = {type(o) for c in cmps for o in c.ops}
+                if ast.NotEq in ops or ast.Eq in ops or ({ast.Lt, ast.Gt} <= ops) or ({ast.Lt, ast.LtE} & ops and {ast.Gt, ast.GtE} & ops):
                     recognised = True
-        if recognised:
+                else:
+                    one_sided = g
+        if one_sided is not None and not recognised:
+            rep.violation("C04.3", cons, f"the argument-count check `{ast.unparse(one_sided.test)}` is one-sided: calls with the other kind of wrong count are expanded", f"{f.path}:{one_sided.lineno}")
+        elif recognised:
             rep.ok("C04.3", cons, "len(call arguments) compared with len(macro parameters) guards a raise that dominates the replacer", loc)
         else:
             rep.undecided("C04.3", cons, "a raising guard dominates the replacer but is not the recognised length comparison", loc)
